@@ -1,6 +1,7 @@
 import FsutilModel.Prune
 import FsutilModel.PruneSyn
 import FsutilModel.Model.Filter
+import FsutilModel.Lemmas.C10
 /-! # C10 — Filtered walk; pruning is unobservable -/
 namespace Fsm.C10
 open P F
@@ -32,54 +33,12 @@ theorem prune_syntactic_sound (s : PS.Shape) (t : Path) (hb : PS.base1 s = some 
     (hk : PS.keepWalking t d = false) : ∀ q, PS.under d q = true → PS.m s q = true → PS.m s d = true :=
   PS.prune_syn_sound s t hb d (by simp) hk
 
-/-- the executable pattern as an abstract (negation, match predicate) pair -/
-def toAbs (p : P.Pat) : Pr.Pat := ⟨p.neg, fun x => patMatch p x⟩
-
-
-theorem go_bridge (path : List Nat) (parent : List Bool) (hne : parent ≠ []) :
-    ∀ (ps : List P.Pat) (par : List Bool) (matched : Bool) (acc : List Bool), par.length = ps.length →
-      matchesUPR.go path parent ps par matched acc =
-        ((Pr.go (ps.map toAbs) par path matched).1, acc.reverse ++ (Pr.go (ps.map toAbs) par path matched).2) := by
-  intro ps
-  induction ps with
-  | nil => intro par matched acc _; simp [matchesUPR.go, Pr.go]
-  | cons p rest ih =>
-    intro par matched acc hlen
-    cases par with
-    | nil => simp at hlen
-    | cons b bs =>
-      have hl : bs.length = rest.length := by simpa using hlen
-      have hpe : parent.isEmpty = false := by cases parent <;> simp_all
-      simp only [matchesUPR.go, List.drop_one, List.tail_cons, List.map_cons, Pr.go, List.headD_cons]
-      by_cases hb : b = true
-      · subst hb
-        simp only [if_true]
-        rw [ih bs _ _ hl]
-        simp [toAbs]
-      · have hb' : b = false := by simpa using hb
-        subst hb'
-        simp only [Bool.false_eq_true, if_false]
-        by_cases hn : (p.neg != matched) = true
-        · simp only [hn, if_true]
-          rw [ih bs _ _ hl]
-          simp [toAbs, hn]
-        · simp only [hn, Bool.false_eq_true, if_false, hpe, Bool.false_and, Bool.or_false]
-          rw [ih bs _ _ hl]
-          simp [toAbs, hn]
-
-
 /-- the executable parent-results matcher IS the abstract one, whenever it is given parent results (i.e. below the root) -/
 theorem matchesUPR_eq (ps : List P.Pat) (path : List Nat) (I : List Bool) (hne : I ≠ []) (hlen : I.length = ps.length) :
     matchesUPR ps path I = Pr.upr (ps.map toAbs) I path := by
   unfold matchesUPR Pr.upr
   rw [go_bridge path I hne ps I false [] hlen]
   simp
-
-theorem Rel_refl (d : Pr.Path) : ∀ (ps : List Pr.Pat) (I : List Bool), I.length = ps.length → Pr.Rel d ps I I
-  | [], [], _ => trivial
-  | [], _ :: _, h => by simp at h
-  | _ :: _, [], h => by simp at h
-  | p :: ps, a :: as, h => ⟨fun ha => Or.inl ha, Rel_refl d ps as (by simpa using h)⟩
 
 /-- **Pruning is unobservable for the executable matcher** (include side, semantic condition): let the transcribed
 `MatchesUsingParentResults` give verdict "no match" at a directory `d`. If no positive pattern of the list matches a path of
@@ -120,20 +79,6 @@ theorem exec_prune_sound (ps : List P.Pat) (hps : ps ≠ []) (Ip : List Bool) (h
   exact Pr.prune_sound (ps.map toAbs) Ip d hlenA hv Below hS' chain hB _ (by rw [hl0]; simp) (Pr.Le_refl _)
     (Rel_refl d _ _ (by rw [hl0]; simp)) q hq trivial
 
-theorem prefix_of_append_left {α : Type} [DecidableEq α] (a b c : List α) (h : a <+: b) : a <+: b ++ c :=
-  h.trans (List.prefix_append b c)
-
-/-- a proper prefix of `d ++ [x]` is a prefix of `d` -/
-theorem prefix_of_proper_prefix_snoc {α : Type} (a d : List α) (x : α) (h : a <+: d ++ [x]) (hne : a ≠ d ++ [x]) : a <+: d := by
-  obtain ⟨t, ht⟩ := h
-  cases t.eq_nil_or_concat with
-  | inl h0 => subst h0; simp at ht; exact absurd ht hne
-  | inr h1 =>
-    obtain ⟨t', y, rfl⟩ := h1
-    have : a ++ t' ++ [y] = d ++ [x] := by simpa [List.append_assoc] using ht
-    have := List.append_inj_left' this rfl
-    exact ⟨t', this⟩
-
 /-- **The syntactic prune test implies the semantic condition for literal and `t/**` patterns** (the pattern kinds that
 `onlyPrefixIncludes` admits and that patternmatcher matches by string comparison): if for every positive pattern the
 directory `d/` is not a prefix of the pattern's literal base followed by `/`, then no positive pattern matches a path
@@ -171,7 +116,6 @@ theorem literal_prune_condition (ps : List P.Pat) (d : List Nat)
     · have hne : t ++ [47] ≠ d ++ [47] := by
         intro e; apply hnp; rw [e]; exact List.prefix_refl _
       exact List.isPrefixOf_iff_prefix.mpr (prefix_of_proper_prefix_snoc _ d 47 h hne)
-
 
 /-- **Pruning below a directory is unobservable for literal and `t/**` include lists, from the syntactic test alone**: if the
 executable matcher says "no match" at `d` and the prune test of filter.go passes (no positive pattern's base lies at or below
